@@ -86,8 +86,15 @@ Search(s, i, pos, sync2, offset) ==      \* pos = next unread index (1-based)
                  ELSE Search(s, i + 1, pos1, 0, off1 + 1)
 ImplOffset(s) == Search(s, 0, 1, 0, 0)
 
-AdtsDomain == {[id |-> 0, pa |-> 1, ot |-> p + 1, sfi |-> f, ch |-> c, pl |-> l, bf |-> b, crc |-> 0] :
-                  p \in Profiles, f \in SfIdx, c \in AdtsChannels, l \in PayloadLens, b \in Fullness}
+\* small PayloadLens: the full product. The complete range 0..8184 (thorough tier): the full product over the
+\* boundary lengths plus EVERY length once, walking through profiles / frequencies / channels diagonally
+\* (TLC cannot build the 3.4 M element product as one set).
+BoundaryPayloadLens == {0, 1, 2, 7, 8, 9, 248, 249, 255, 256, 257, 504, 505, 1016, 1017, 2040, 2041, 4088, 4089, 4096, 8176, 8177, 8183, 8184}
+AdtsProduct(lens) == {[id |-> 0, pa |-> 1, ot |-> p + 1, sfi |-> f, ch |-> c, pl |-> l, bf |-> b, crc |-> 0] :
+                         p \in Profiles, f \in SfIdx, c \in AdtsChannels, l \in lens, b \in Fullness}
+AdtsDomain == IF Cardinality(PayloadLens) <= 64 THEN AdtsProduct(PayloadLens)
+              ELSE AdtsProduct(BoundaryPayloadLens)
+                   \cup {[id |-> 0, pa |-> 1, ot |-> (l % 4) + 1, sfi |-> l % 13, ch |-> l % 8, pl |-> l, bf |-> b, crc |-> 0] : l \in PayloadLens, b \in Fullness}
 
 RECURSIVE SeqsUpTo(_, _)
 SeqsUpTo(S, n) == IF n = 0 THEN {<<>>} ELSE LET r == SeqsUpTo(S, n - 1) IN r \cup {Append(x, b) : x \in r, b \in S}
